@@ -60,10 +60,14 @@ def _run_batch(b):
     eng = _ENGINE
     out = dict(evaluations=0, digests={}, nontrivial=[], sim_time=0, faults={}, probes={},
                samples=[], violations=[], harness=[])
+    timeouts = 0
     for idx in b.indices:
         if b.isolate:
+            if timeouts >= 2:
+                break        # a batch full of hanging runs would cost a watchdog period each
             st, res = forkpool.isolated(_one, (b.prop, b.tier, b.seed, idx), timeout=b.isolate)
             if st != 'ok':
+                timeouts += st == 'timeout'
                 out['harness'].append(dict(index=idx, status=st, detail=str(res)[-1500:]))
                 continue
         else:
@@ -105,8 +109,20 @@ def _fresh_interpreter(args, hashseed, jobs=None, timeout=600):
     return p.returncode, p.stdout.decode(errors='replace'), p.stderr.decode(errors='replace')
 
 
+HANG_KEY = 'hang|wall-watchdog'
+SPEC_TIMEOUT = 100
+
+
+def _hang_violation(spec, seconds):
+    return dict(key=HANG_KEY, check='wall-clock watchdog: the execution performs no (or endless) work without finishing',
+                expected='terminates', observed='killed after %ss' % seconds, spec=spec)
+
+
 def _exec_spec_isolated(spec):
-    st, res = forkpool.isolated(_ENGINE.execute_spec, spec, timeout=120)
+    st, res = forkpool.isolated(_ENGINE.execute_spec, spec, timeout=SPEC_TIMEOUT)
+    if st == 'timeout':
+        # a run the watchdog had to kill is a reportable outcome, replayable like any other
+        return dict(spec=spec, violations=[_hang_violation(spec, SPEC_TIMEOUT)], digest='TIMEOUT')
     if st != 'ok':
         return dict(violations=[], digest='HARNESS:%s' % st, harness=(st, str(res)[-1500:]))
     return res
@@ -128,7 +144,7 @@ def explore(engine, prop, tier, seed, batch=BATCH_DEFAULT, isolate=None, budget_
     indices = list(range(n))
     tasks = [Batch(engine.ENGINE, prop, tier, seed, indices[i:i + batch], isolate)
              for i in range(0, n, batch)]
-    deadline = None if budget_s is None else t0 + budget_s
+    deadline = None if budget_s is None else time.monotonic() + budget_s      # the budget is for exploration, after preparation
     agg = dict(evaluations=0, digests={}, nontrivial=set(), sim_time=0, faults={}, probes={},
                samples=[], violations=[], harness=[], skipped=0)
     per_task_timeout = max(300, (isolate or 0) * 4)
@@ -163,10 +179,13 @@ def explore(engine, prop, tier, seed, batch=BATCH_DEFAULT, isolate=None, budget_
                 redo.extend(tasks[h['task']].indices)
             else:
                 redo.append(h['index'])
-        hang = getattr(engine, 'on_harness_failure', None)
+        spec_for = getattr(engine, 'spec_for', None)
         still = []
+        hangs = 0
         for idx in redo[:200]:
-            st, res = forkpool.isolated(_one, (prop, tier, seed, idx), timeout=isolate or 90)
+            if hangs >= 3:
+                break       # enough instances of a hang; each costs a full watchdog period
+            st, res = forkpool.isolated(_one, (prop, tier, seed, idx), timeout=SPEC_TIMEOUT)
             if st == 'ok':
                 agg['evaluations'] += res.get('evaluations', 1)
                 agg['digests'][idx] = res['digest']
@@ -174,12 +193,10 @@ def explore(engine, prop, tier, seed, batch=BATCH_DEFAULT, isolate=None, budget_
                     v = dict(v, index=idx)
                     v.setdefault('spec', res.get('spec'))
                     agg['violations'].append(v)
-            elif hang is not None:
-                v = hang(prop, tier, seed, idx, st, res)
-                if v is not None:
-                    agg['violations'].append(dict(v, index=idx))
-                else:
-                    still.append((idx, st, str(res)[-800:]))
+            elif st == 'timeout' and spec_for is not None:
+                hangs += 1
+                agg['evaluations'] += 1
+                agg['violations'].append(dict(_hang_violation(spec_for(prop, tier, seed, idx), SPEC_TIMEOUT), index=idx))
             else:
                 still.append((idx, st, str(res)[-800:]))
         if still:
@@ -217,7 +234,7 @@ def explore(engine, prop, tier, seed, batch=BATCH_DEFAULT, isolate=None, budget_
             continue
         try:
             tmin = time.monotonic()
-            small = engine.minimise(spec, key, still_fails, tmin + 45)
+            small = spec if key == HANG_KEY else engine.minimise(spec, key, still_fails, tmin + 45)
         except Exception as e:   # minimiser trouble must not hide the violation
             small = spec
             lines.append('NOTE minimiser failed: %r' % (e,))
@@ -270,6 +287,13 @@ def explore(engine, prop, tier, seed, batch=BATCH_DEFAULT, isolate=None, budget_
             if st_info['mismatches']:
                 exit_code = max(exit_code, 2)
 
+    if agg['evaluations'] == 0:
+        lines.append('HARNESS-ERROR property=%s nothing was explored (0 runs): a clean exit would be meaningless' % prop)
+        exit_code = max(exit_code, 2)
+    if confirmed_new:
+        # a violation that was minimised and reproduced in a fresh interpreter stands on its own feet: report it as
+        # such (exit 1) even if other parts of the invocation had harness trouble (those lines are printed too)
+        exit_code = 1
     wall = time.monotonic() - t0
     desc = engine.describe(prop)
     nt = len(agg['nontrivial'])
